@@ -576,6 +576,10 @@ fn scan<F: FnMut(&[u8])>(
     buf_len: usize,
     mut consumer: F,
 ) -> io::Result<u64> {
+    #[cfg(fclones_verif)]
+    let buf_len = crate::verif_hooks::knob("FCLONES_VERIF_BUF_LEN")
+        .map(|v| v as usize)
+        .unwrap_or(buf_len);
     BUF.with(|buf| {
         let mut buf = buf.borrow_mut();
         let new_len = max(buf.len(), buf_len);
